@@ -17,3 +17,10 @@ class Shared:
 class Rec(t.TypedDict):
     id: str
     tag: int
+
+
+def unmarshal_here(ref, x):
+    """Issue a string reference from *this* module."""
+    import typelib
+
+    return typelib.unmarshal(ref, x)
